@@ -271,6 +271,7 @@ pub fn check_case(c: &Case, rep: &mut Report) {
 }
 
 pub fn run(cfg: &Cfg) -> Report {
+    crate::tls::prewarm(true);
     let seed = cfg.seed;
     let mut total = Report::new();
     let plan: Vec<(u64, u64)> = vec![(0, cfg.n(8_000, 1_500_000)), (1, cfg.n(1_500, 200_000)), (2, cfg.n(48 * 72, 48 * 72 * 24)), (3, cfg.n(140 * 8, 140 * 800))];
